@@ -192,6 +192,14 @@ func (g *G) opts(pairs []sepPair, lineOnly bool) *rosed.Options {
 	} else {
 		p := pairs[g.r.Intn(len(pairs))]
 		o.LineSeparator, o.ParagraphSeparator = p.line, p.para
+		if len(pairs) == len(sepPairs) && g.chance(0.12) {
+			// the call's options leave the line separator (and the paragraph separator) to the default
+			// (not for the pairs chosen to consist of line separators only)
+			o.LineSeparator = ""
+			if g.chance(0.5) {
+				o.ParagraphSeparator = ""
+			}
+		}
 		o.PreserveParagraphs = g.chance(0.6)
 	}
 	o.NoTrailingLineSeparators = g.chance(0.35)
@@ -348,6 +356,9 @@ func (g *G) genCase(stream, id string) Case {
 		}
 		return c
 	case "paras": // C11
+		if g.chance(0.12) {
+			return g.affixParas(stream, id, deg)
+		}
 		o := g.opts(sepPairs, false)
 		if o != nil {
 			o.PreserveParagraphs = true
@@ -401,6 +412,9 @@ func (g *G) genCase(stream, id string) Case {
 		}
 		return c
 	case "ws": // C07
+		if g.chance(0.12) {
+			return g.affixParas(stream, id, deg)
+		}
 		o := g.opts(sepPairs, false)
 		ls, ps := optsSeps(o)
 		t := g.text(12, deg, ls, ps)
@@ -534,6 +548,55 @@ func (g *G) sameOr(o *rosed.Options) *rosed.Options {
 		return nil
 	}
 	return o
+}
+
+// separators with a visible part before and/or after their last line separator
+var affixPairs = []sepPair{{"\n", "\n<P>"}, {"\n", "<P>\n"}, {"\n", "\n--\n"}, {"<br>", "<p>"}, {"\n", "X\nY"}, {"\n", "\n* * *\n"},
+	{"<br>", "<hr><br>"}, {"\n", "=\n=\n="}}
+
+// affixParas: paragraph mode with a separator that has visible affixes, a few short paragraphs,
+// and a width within a few columns of the length of one of their lines - where the affix that
+// the paragraph machinery adds to a first or last line decides what fits
+func (g *G) affixParas(stream, id string, deg bool) Case {
+	p := affixPairs[g.r.Intn(len(affixPairs))]
+	o := &rosed.Options{LineSeparator: p.line, ParagraphSeparator: p.para, PreserveParagraphs: true,
+		NoTrailingLineSeparators: g.chance(0.4), JustifyLastLine: g.chance(0.4)}
+	var paras []string
+	var lens []int
+	for i := 2 + g.r.Intn(2); i > 0; i-- {
+		var lines []string
+		for j := 1 + g.r.Intn(2); j > 0; j-- {
+			l := strings.Repeat(" ", g.r.Intn(3))
+			for w := 1 + g.r.Intn(4); w > 0; w-- {
+				if deg && g.chance(0.15) {
+					l += g.pick(niceClusters)
+				} else {
+					l += g.pick(asciiWords)
+				}
+				if w > 1 {
+					l += " "
+				}
+			}
+			l += strings.Repeat(" ", g.r.Intn(3))
+			lines = append(lines, l)
+			lens = append(lens, clusterCount(l))
+		}
+		paras = append(paras, strings.Join(lines, p.line))
+	}
+	t := strings.Join(paras, p.para)
+	w := lens[g.r.Intn(len(lens))] + g.r.Intn(9) - 4
+	var op Op
+	switch g.r.Intn(6) {
+	case 0, 1, 2:
+		op = Op{Name: "align", I: []int{1 + g.r.Intn(3), w}, Opts: o}
+	case 3:
+		op = Op{Name: "justify", I: []int{w}, Opts: o}
+	case 4:
+		op = Op{Name: "wrap", I: []int{w}, Opts: o}
+	default:
+		op = Op{Name: "indent", I: []int{1 + g.r.Intn(2)}, Opts: o}
+	}
+	return g.viaEditor(one(stream, id, t, op))
 }
 
 // nested: a selection, an edit of it that keeps its length (so that nothing about the
